@@ -30,6 +30,22 @@ CHECKS = {
             "with the stateless abstract model, and the net digest before/after.",
             "default function set stubbed in the exhaustive part (real set on a seeded sample in thorough); reports not covered",
             "TLC-generated histories replayed on real objects; observations validated by TLC", "§4 C30"),
+    "C08": ("fault_enumeration",
+            "CalcPipeline.tla models every calculation kind as a staged machine with auxiliary rows / temporaries and the "
+            "required restore-on-every-exit design; TLC enumerates every (kind x feature subset x crash point) triple incl. "
+            "nested contingency runs; each triple is executed on the real code with an injected raise at that hook stage (or "
+            "the natural failure), and CalcPipelineTrace.tla validates the recorded hook-event trace against the machine and "
+            "decides 'no rows added/removed, no pre-existing input value changed' on the observed final state.",
+            "crash points = hook stages of pandapower/_verif.py + 2 natural failures; estimate()/b2b_vsc not covered; "
+            "tables compared per pre-existing column by value digest",
+            "TLC-enumerated crash points injected via env-guarded hooks; trace validation by TLC", "§4 C08"),
+    "C09": ("model_checking",
+            "History.tla: TLC enumerates every history (<=4 steps) of edits and calculations ending in a power flow; each is "
+            "replayed on one long-lived net, the last step also on a deep copy and on a freshly built net with the same "
+            "element state; TLC compares the three result projections in fixed point, checks the NaN mask against the spec's "
+            "unsupplied set and the convergence obligation of init='results' under the Nearby predicate.",
+            "one template; DC runs are not compared on q_mvar against the fresh net (rundcpp leaves that column untouched)",
+            "TLC-generated histories replayed differentially; relations evaluated by TLC", "§4 C09"),
 }
 
 NOT_APPLICABLE = {
